@@ -61,6 +61,8 @@ def generate(seed, tier):
     for _ in range(r.randint(0, 3)):
         ops.append({'t': round(r.uniform(0.3, T), 3), 'op': 'sendfail', 'node': 'B', 'nth': r.randint(1, 4),
                     'exc': r.choice(['oserror', 'gaierror', 'eperm'])})
+    if r.random() < 0.2:
+        ops.append({'t': round(r.uniform(0.3, T), 3), 'op': 'clockjump', 'node': 'B', 'delta': r.choice([-1.0, -60.0, -3600.0, 90.0, 3600.0])})
     for _ in range(r.randint(0, 2)):
         ops.append({'t': round(r.uniform(0.3, T), 3), 'op': 'recvfail', 'node': 'B', 'sock': r.choice(['udp', 'udp', 'nl']),
                     'exc': r.choice(['refused', 'noroute'])})
@@ -167,7 +169,7 @@ def _execute(scenario, with_hostile=True):
     sc = scenario
     if not with_hostile:
         sc = copy.deepcopy(scenario)
-        sc['ops'] = [o for o in sc['ops'] if not (o['op'] in ('sendfail', 'recvfail', 'kerr', 'kraw') or
+        sc['ops'] = [o for o in sc['ops'] if not (o['op'] in ('sendfail', 'recvfail', 'kerr', 'kraw', 'clockjump') or
                                                   (o['op'] == 'call' and o['name'] in ('hostile', 'kodd')))]
         sc.pop('byz', None)
         sc['fate_policy'] = {'mode': 'random', 'lat_range': [0.005, 0.05]}
